@@ -71,11 +71,13 @@ theorem CfgOk.congr {s s' : St} (h1 : s'.chans = s.chans) (h2 : raIds s' = raIds
   raNe := by rw [h2]; exact h.raNe
   chNe := by rw [h1]; exact h.chNe
 
-/-- a stored packet agrees with the channel table and has uint64 height and sequence -/
+/-- a stored packet agrees with the channel table, has uint64 height and sequence, and one of the three
+    real packet types (the middleware records ON_RECV / ON_ACK / ON_TIMEOUT only; C18's delayedack
+    genesis model needs it: `InitGenesis` indexes no packet of the UNDEFINED type) -/
 def PktOk (s : St) (q : Packet) : Prop :=
   chanRollapp s q.chan = .ok (some q.rollappId) ∧
   q.srcChan = (if q.ptype == .onRecv then cpIdOf s q.chan else hubIdOf s q.chan) ∧
-  q.proofHeight < 2 ^ 64 ∧ q.seq < 2 ^ 64
+  q.proofHeight < 2 ^ 64 ∧ q.seq < 2 ^ 64 ∧ q.ptype ≠ .undefined
 
 theorem PktOk.congr {s s' : St} (h1 : s'.chans = s.chans) (h2 : raIds s' = raIds s) {q : Packet} (h : PktOk s q) : PktOk s' q := by
   unfold PktOk at *
@@ -138,7 +140,7 @@ theorem key_determines_uid {s : St} {p q : Packet} (hc : CfgOk s) (hp : PktOk s 
   obtain ⟨sp1, sp2⟩ := hp.noSep hc
   obtain ⟨sq1, sq2⟩ := hq.noSep hc
   unfold pkey at h
-  obtain ⟨e1, e2, _, e4, _, e6⟩ := C19.packet_key_injective _ _ _ _ _ _ _ _ _ _ _ _ sq1 sp1 sq2 sp2 hq.2.2.1 hp.2.2.1 hq.2.2.2 hp.2.2.2 h
+  obtain ⟨e1, e2, _, e4, _, e6⟩ := C19.packet_key_injective _ _ _ _ _ _ _ _ _ _ _ _ sq1 sp1 sq2 sp2 hq.2.2.1 hp.2.2.1 hq.2.2.2.1 hp.2.2.2.1 h
   have hchan : q.chan = p.chan := hc.canon _ _ p.rollappId (e2 ▸ hq.1) hp.1
   exact ⟨by unfold Packet.uid; rw [e4, hchan, e6], e1⟩
 
@@ -424,7 +426,7 @@ theorem idx_recvAuth {s0 : St} (c seq ph : Nat) (d : RecvData) (h0 : IdxInv s0) 
                 | some r => exact ⟨r, rfl⟩
               subst hrid
               have hP : PktOk s0 (mkRecvPacket s0 c seq ph ((some rid).getD []) d tgt) := by
-                refine ⟨hra, ?_, hph, hseq⟩
+                refine ⟨hra, ?_, hph, hseq, by simp [mkRecvPacket]⟩
                 simp [mkRecvPacket]
               apply IdxInv.record h0 _ rfl hP
               intro q hq hk
@@ -496,7 +498,7 @@ theorem idx_ackOpen {s s' : St} {c seq ph : Nat} {isTimeout isErr : Bool} (h4 : 
             | some r => exact ⟨r, rfl⟩
           subst hrid
           have hP : PktOk s0 (mkSentPacket s0 x (sentType isTimeout) ph ((some rid).getD []) (!isTimeout && isErr)) := by
-            refine ⟨hra, ?_, hph, hseq⟩
+            refine ⟨hra, ?_, hph, hseq, by cases isTimeout <;> simp [mkSentPacket, sentType]⟩
             simp [mkSentPacket, sentType_ne_recv]
           have key : IdxInv (setPacket (addByAddr s0 (mkSentPacket s0 x (sentType isTimeout) ph ((some rid).getD []) (!isTimeout && isErr)).target
               (pkey (mkSentPacket s0 x (sentType isTimeout) ph ((some rid).getD []) (!isTimeout && isErr))))
